@@ -22,13 +22,31 @@ def collect(eng, run, base, cfg='', replay=None):
         frames = traceback.extract_tb(exc.__traceback__)
         here = os.path.dirname(os.path.abspath(__file__))
         inner = frames[-1] if frames else None
-        in_tool = inner is not None and os.path.abspath(inner.filename).startswith(here) and not inner.filename.endswith(':lifted') \
-            and not getattr(exc, '_pgv_contract', False)
+        in_tool = (inner is not None and os.path.abspath(inner.filename).startswith(here) and not inner.filename.endswith(':lifted')
+                   and not getattr(exc, '_pgv_contract', False)) or _stub_gap(exc)
         where = f"{inner.filename.split('/')[-1]}:{inner.lineno} in {inner.name}" if inner else '?'
         obs.append({'name': f"{base}/sx.no_unexpected_exception{tag}", 'verdict': 'unsupported' if in_tool else 'refuted', 'backend': 'sx', 'time': 0.0,
                     'model': None, 'detail': f"{type(exc).__name__}: {str(exc)[:160]} @ {where}", 'pc': eng.pc_text() if hasattr(eng, 'pc_text') else '',
                     'extra': {'replay': replay, 'observed': f"{type(exc).__name__}: {str(exc)[:160]}"}})
         return obs
+
+
+def _stub_gap(exc):
+    """the code under verification asked a symbolic value or a contract stub for something it does not model (an attribute,
+    an operand combination): a limit of this tooling, hence undecided -- never a violation"""
+    import sys
+    if getattr(exc, '_pgv_contract', False):
+        return False
+    if isinstance(exc, AttributeError) and type(getattr(exc, 'obj', None)).__module__.split('.')[0] == 'pgv':
+        return True
+    if isinstance(exc, (TypeError, AttributeError, NotImplementedError)):
+        names = set()
+        for mn, mod in list(sys.modules.items()):
+            if mn.split('.')[0] == 'pgv' and mod is not None:
+                names.update(k for k, v in vars(mod).items() if isinstance(v, type) and getattr(v, '__module__', '').split('.')[0] == 'pgv')
+        msg = str(exc)
+        return any(f"'{n}'" in msg for n in names)
+    return False
 
 
 def _collect(eng, run, base, cfg, obs, tag):
